@@ -8,6 +8,7 @@
     the program/mailbox is outside every listed class of Model/SearchClass.v;
     each class has a [c19_refuted_...] witness below. *)
 From Coq Require Import String Ascii List Bool Arith ZArith Sorted.
+From Raven Require Spec.SeqSet.
 From Raven Require Import Base.GoStr Model.Search Model.SearchText Spec.Search Model.SearchClass
   Proof.SearchHandler Proof.SearchTok Proof.SearchMain Proof.SearchUid Proof.SearchRefuted Proof.SearchTotal.
 Import ListNotations.
@@ -105,15 +106,15 @@ Proof. intros T parts msgs. split; [apply search_never_panics | apply uid_search
 Print Assumptions c19_never_panics.
 
 (** ** where raven violates the property: one witness per class *)
-Theorem c19_refuted_comma_set : exists ks mb, refutes CCommaSet ks mb.
-Proof. exact refuted_comma_set. Qed.
-Print Assumptions c19_refuted_comma_set.
-Theorem c19_refuted_star : exists ks mb, refutes CStar ks mb.
-Proof. exact refuted_star. Qed.
-Print Assumptions c19_refuted_star.
-Theorem c19_refuted_reversed_range : exists ks mb, refutes CReversedRange ks mb.
-Proof. exact refuted_reversed_range. Qed.
-Print Assumptions c19_refuted_reversed_range.
+(** repaired by 32751d9 (SEARCH sets follow RFC 3501): comma lists, "*", reversed ranges *)
+Example c19_sets_repaired :
+  search_line [KSeq [sone 1; sone 3]] wit_mb = ROk [1; 3]
+  /\ search_line [KSeq [Spec.SeqSet.One Spec.SeqSet.Star]] wit_mb = ROk [3]
+  /\ search_line [KSeq [srange 3 1]] wit_mb = ROk [1; 2; 3]
+  /\ search_line [KUid [Spec.SeqSet.Range (Spec.SeqSet.Num 2) Spec.SeqSet.Star; sone 1]; KNot (KSeq [sone 2])] wit_mb = ROk [1; 3]
+  /\ classify_line [KUid [Spec.SeqSet.Range (Spec.SeqSet.Num 2) Spec.SeqSet.Star; sone 1]; KNot (KSeq [sone 2])] wit_mb = None.
+Proof. exact sets_repaired. Qed.
+
 (** repaired by "NOT and OR take complete search keys": the former witnesses of
     paren_group / not_or_arity and a nested program meet the specification *)
 Example c19_arity_repaired :
@@ -148,8 +149,8 @@ Print Assumptions c19_refuted_quoted_space.
 Example c19_uid_search_repaired :
   uid_search_line [KUn FSeen] wit_mb = ROk [2; 3]
   /\ reply_ok (uid_search_line [KUn FSeen] wit_mb) (spec_uid_search [KUn FSeen] wit_mb) = true
-  /\ uid_search_line [KUid [SOne (SNum (S_ "2"))]] wit_mb = ROk [2]
-  /\ reply_ok (uid_search_line [KUid [SOne (SNum (S_ "2"))]] wit_mb) (spec_uid_search [KUid [SOne (SNum (S_ "2"))]] wit_mb) = true
+  /\ uid_search_line [KUid [sone 2]] wit_mb = ROk [2]
+  /\ reply_ok (uid_search_line [KUid [sone 2]] wit_mb) (spec_uid_search [KUid [sone 2]] wit_mb) = true
   /\ uid_search_line [KNot (KHas FSeen); KHdr HFrom (S_ "bob")] wit_mb = ROk [2].
 Proof. exact uid_search_repaired. Qed.
 
@@ -174,11 +175,11 @@ Proof. exact sent_date_as_written. Qed.
 (** a copied message (same text, byte-identical flags, listed twice): every
     entry is judged on its own sequence number, UID and internal date *)
 Example c19_copied_entries_on_their_own :
-  classify_line [KOr (one_ "2") (KHdr HFrom (S_ "carol"))] copy_mb = None
-  /\ search_line [one_ "1"] copy_mb = ROk [1] /\ search_line [one_ "2"] copy_mb = ROk [2]
-  /\ search_line [KNot (one_ "1")] copy_mb = ROk [2; 3]
-  /\ search_line [KOr (one_ "2") (KHdr HFrom (S_ "carol"))] copy_mb = ROk [2; 3]
-  /\ search_line [KUid [SRange (SNum (S_ "2")) (SNum (S_ "3"))]] copy_mb = ROk [2; 3]
+  classify_line [KOr (one_ 2) (KHdr HFrom (S_ "carol"))] copy_mb = None
+  /\ search_line [one_ 1] copy_mb = ROk [1] /\ search_line [one_ 2] copy_mb = ROk [2]
+  /\ search_line [KNot (one_ 1)] copy_mb = ROk [2; 3]
+  /\ search_line [KOr (one_ 2) (KHdr HFrom (S_ "carol"))] copy_mb = ROk [2; 3]
+  /\ search_line [KUid [srange 2 3]] copy_mb = ROk [2; 3]
   /\ search_line [KDate false COn (S_ "1", 10, S_ "2026")] copy_mb = ROk [1].
 Proof. exact copied_entries_on_their_own. Qed.
 
@@ -186,8 +187,8 @@ Proof. exact copied_entries_on_their_own. Qed.
     a keyword, a date, a size and a string key satisfies every hypothesis of
     c19_search_cmd_exact on the witness mailbox, and selects a proper subset *)
 Definition ex_prog : list key :=
-  [ KNot (KHas FSeen); KOr (KSeq [SRange (SNum (S_ "2")) (SNum (S_ "3"))]) (KKeyword (S_ "work"));
-    KUid [SRange (SNum (S_ "1")) (SNum (S_ "9"))]; KDate false CSince (S_ "1", 1, S_ "2020");
+  [ KNot (KHas FSeen); KOr (KSeq [srange 2 3]) (KKeyword (S_ "work"));
+    KUid [srange 1 9]; KDate false CSince (S_ "1", 1, S_ "2020");
     KLarger (S_ "10"); KText (S_ "body t") ].
 Example c19_fragment_example :
   wf_prog ex_prog = true /\ mb_ok wit_mb = true /\ classify_line ex_prog wit_mb = None
